@@ -3,7 +3,9 @@
 package ctlog
 
 import (
+	"bytes"
 	"context"
+	"crypto/sha256"
 	"crypto/ecdsa"
 	"crypto/elliptic"
 	"fmt"
@@ -91,8 +93,11 @@ type simSys struct {
 	acks      []simAck
 
 	// configuration of the oracle
-	strictModel bool // a committed tree must be previous tree + the pool being sequenced
-	auditNames  bool
+	strictModel    bool // a committed tree must be previous tree + the pool being sequenced
+	auditNames     bool
+	auditOnPublish bool // full storage audit at the instant every checkpoint becomes publicly readable (C04)
+	audits         int
+	onAck          func(a simAck) // called at the instant an acknowledgement is observed
 	logf        func(string, ...any)
 }
 
@@ -102,6 +107,38 @@ func newSimSys(t simFataler, dir string) *simSys {
 	timeNowUnixMilli = func() int64 { return s.w.clock }
 	s.w.onApplied = s.onApplied
 	return s
+}
+
+func (s *simSys) activate() { timeNowUnixMilli = func() int64 { return s.w.clock } }
+
+// clone copies the whole world and the reference model into a fresh system
+// (used by the exhaustive sweeps to branch from a common state). No process
+// of s may be running.
+func (s *simSys) clone(dir string) *simSys {
+	n := newSimSys(s.t, dir)
+	n.pool, n.strictModel, n.auditNames, n.auditOnPublish = s.pool, s.strictModel, s.auditNames, s.auditOnPublish
+	s.w.mu.Lock()
+	for k, v := range s.w.objs {
+		n.w.objs[k] = v
+	}
+	for k, v := range s.w.opts {
+		n.w.opts[k] = v
+	}
+	for k, v := range s.w.lock {
+		n.w.lock[k] = v
+	}
+	n.w.opN, n.w.clock, n.w.procs = s.w.opN, s.w.clock, s.w.procs
+	n.w.lockLog = append([]simCkptEvent(nil), s.w.lockLog...)
+	n.w.pubLog = append([]simCkptEvent(nil), s.w.pubLog...)
+	n.w.viol = append([]string(nil), s.w.viol...)
+	s.w.mu.Unlock()
+	n.w.cacheRestore(s.w.cacheSnapshot())
+	n.model = append([]*vfref.Entry(nil), s.model...)
+	n.modelTree = *s.modelTree.Clone()
+	n.commits = append([]*simCkpt(nil), s.commits...)
+	n.published = append([]*simCkpt(nil), s.published...)
+	n.acks = append([]simAck(nil), s.acks...)
+	return n
 }
 
 var simDiscardLog = slog.New(slog.DiscardHandler)
@@ -165,6 +202,20 @@ func (s *simSys) onApplied(op *simOp, data, old []byte) {
 			}
 		}
 		s.commits = append(s.commits, c)
+	case op.Kind == "discard":
+		var n int64
+		var h string
+		if _, err := fmt.Sscanf(op.Key, "staging/%d-%s", &n, &h); err == nil {
+			pubSize := int64(-1)
+			if b, ok := w.objs["checkpoint"]; ok {
+				if c, err := simOpenCheckpoint(simLogName, &s.key.PublicKey, b); err == nil {
+					pubSize = c.Size
+				}
+			}
+			if pubSize < n {
+				w.violate("staging bundle %s discarded (op %d) while the published checkpoint has size %d", op.Key, op.N, pubSize)
+			}
+		}
 	case op.Kind == "upload" && op.Key == "checkpoint":
 		c, err := simOpenCheckpoint(simLogName, &s.key.PublicKey, data)
 		if err != nil {
@@ -182,6 +233,20 @@ func (s *simSys) onApplied(op *simOp, data, old []byte) {
 			w.violate("checkpoint %v became publicly readable (op %d) without having been committed to the lock store first", c, op.N)
 		}
 		s.published = append(s.published, c)
+		if s.auditOnPublish {
+			s.audits++
+			leaves, err := simAudit(w.objs, c, simAuditOpts{Names: s.auditNames})
+			if err != nil {
+				w.violate("checkpoint %v became publicly readable (op %d) but storage is not a complete, exact rendering of it: %v", c, op.N, err)
+			} else if s.strictModel {
+				for i, e := range leaves {
+					if i >= len(s.model) || !simSameEntry(e, s.model[i]) {
+						w.violate("published checkpoint %v: stored leaf %d is not the committed leaf (op %d)", c, i, op.N)
+						break
+					}
+				}
+			}
+		}
 	}
 }
 
@@ -244,6 +309,16 @@ func (s *simSys) submit(ctx context.Context, in *simInst, e *simEntry, low bool)
 	in.l.poolMu.Unlock()
 	f, src := in.l.addLeafToPool(ctx, e.P, low)
 	wt := &simWaiter{Entry: e, F: f, Src: src, Low: low}
+	if src == "sequencer" || src == "pool" || src == "cache" {
+		for _, iss := range e.P.Issuers {
+			b, ok := s.w.obj(fmt.Sprintf("issuer/%x", sha256.Sum256(iss)))
+			if !ok || !bytes.Equal(b, iss) {
+				s.w.mu.Lock()
+				s.w.violate("entry %d admitted (source %s) while its issuer %x is not in storage", e.ID, src, sha256.Sum256(iss))
+				s.w.mu.Unlock()
+			}
+		}
+	}
 	switch src {
 	case "sequencer":
 		wt.Pool = cur
@@ -309,6 +384,9 @@ func (s *simSys) resolve(in *simInst, wt *simWaiter, le *sunlight.LogEntry, err 
 	s.acks = append(s.acks, a)
 	if res != nil {
 		res.Acks = append(res.Acks, a)
+	}
+	if s.onAck != nil {
+		s.onAck(a)
 	}
 }
 
